@@ -200,7 +200,7 @@ func (c *Ctx) checkCopy(rule string, fi *load.FuncInfo, root ast.Node, dst, src 
 func c18(c *Ctx) {
 	r := c.R
 	r.Explanation = "Structural completeness and agreement of the hand-written codecs (same kind of claim as C03). (F1) robust.Message <-> pb.RobustMessage: ProtoMessage, CopyToProtoMessage and the protobuf branch of NewMessageFromBytes each copy every field (except the json:\"-\" recipient set) from the like-named field, the enum values agree, and the id defaults to the raft index only under the zero test; (F2) raft.Log <-> pb.RaftLog: every encoder and decoder copy in the module (Apply, StoreLogs, ConvertToProto x2, GetLog, raftlog.FromBytes, Snapshot, canary, log dump) copies all six fields from the like-named field with the matching conversion; (F3) framing: every protobuf value written gets the one-byte 'p' marker that every reader strips ([1:]); (F4) the output-store batch codec: the writer's and the reader's scripts (ordered items, widths, byte order, loops, cursor increments) are equal and the size pre-computation sums the same items. Value-level round-trip equality for all inputs is not decided."
-	r.Rules = []string{"C18.F1 robust.Message codec", "C18.F2 raft.Log codec copies", "C18.F3 framing agreement", "C18.F4 output batch codec symmetry"}
+	r.Rules = []string{"C18.F1 robust.Message codec", "C18.F2 raft.Log codec copies", "C18.F3 framing agreement", "C18.F4 output batch codec symmetry", "C18.F5 textual ids"}
 
 	goMsg := c.P.Named("robust", "Message")
 	goID := c.P.Named("robust", "Id")
@@ -285,6 +285,54 @@ func c18(c *Ctx) {
 				"the decoded message id is overwritten with the raft index although it was present (or a different field is defaulted)")
 		}
 		r.Check(nDef == 1, "C18.F1", fi.Name(), "one id default", c.P.Pos(fi.Node().Pos()), "found", "expected exactly one assignment from the index parameter")
+	}
+	// F5: textual ids are read back as they are written: a robust.Id component is never fed from strconv.ParseInt (ids use
+	// the full unsigned 64-bit range; the writers format them with FormatUint / %d of a uint64)
+	{
+		n := 0
+		for _, fi := range c.P.AllFuncs {
+			// only readers of files the program wrote itself (package main: the text-log dump); ban masks typed by users are
+			// not a stored format
+			if fi.Body() == nil || load.ShortPkg(fi.Pkg.PkgPath) != "main" {
+				continue
+			}
+			info := fi.Info()
+			for _, cl := range compositeLitsOf(info, fi.Body(), pathRobust, "Id") {
+				for _, fld := range []string{"Id", "Reply"} {
+					v := litField(cl, fld)
+					if v == nil {
+						continue
+					}
+					// strip conversions, follow a single definition
+					e := ast.Unparen(v)
+					for k := 0; k < 4; k++ {
+						if call, ok := e.(*ast.CallExpr); ok && len(call.Args) == 1 {
+							if tv, okT := info.Types[call.Fun]; okT && tv.IsType() {
+								e = ast.Unparen(call.Args[0])
+								continue
+							}
+						}
+						if d := uniqueDef(info, fi.Node(), e); d != nil {
+							e = ast.Unparen(d)
+							continue
+						}
+						break
+					}
+					call, ok := e.(*ast.CallExpr)
+					if !ok {
+						continue
+					}
+					fn := astx.Callee(info, call)
+					if fn == nil || fn.Pkg() == nil || fn.Pkg().Path() != "strconv" {
+						continue
+					}
+					n++
+					r.Check(fn.Name() == "ParseUint", "C18.F5", fi.Name(), "id component "+fld+" parsed as unsigned", c.P.Pos(call.Pos()), "strconv.ParseUint",
+						"an id is read back with strconv."+fn.Name()+": ids at or above 2^63 (ids are derived from nanosecond timestamps plus an offset and use the full uint64 range) cannot be read back")
+				}
+			}
+		}
+		r.Check(n >= 1, "C18.F5", "module", "textual id readers found", "-", itoa(n), "no robust.Id built from a strconv parse (vacuity guard)")
 	}
 	// enum agreement
 	c.c18Enums()
